@@ -314,6 +314,10 @@ func (o *cmC05) agree(m *chainMachine, post *cmSnap, what string) {
 		if live != open {
 			m.fatalf("c05-bid-deposit", "after %s: bid %s is %s but its deposit account is %s", what, m.bidName(b.BidID), b.State, fmtAcc(a, ok))
 		}
+		// "a provider's bid deposit is returned exactly when the bid or the deployment ends"
+		if d, found := post.deployment(b.BidID.DeploymentID()); found && d.State != dtypes.DeploymentActive && open {
+			m.fatalf("c05-deposit-held-after-deployment-ended", "after %s: deployment %s/%d is %s but the deposit of bid %s (%s) is still held in escrow", what, m.byAddr[d.DeploymentID.Owner].name, d.DeploymentID.DSeq, d.State, m.bidName(b.BidID), b.State)
+		}
 	}
 	for _, d := range post.deployments {
 		a, ok := post.account(dtypes.EscrowAccountForDeployment(d.DeploymentID))
